@@ -2,10 +2,13 @@
 # Builds the framework once (warms the Go build cache); offline.
 set -e
 export GOFLAGS=-mod=mod GOPROXY=off GOSUMDB=off GOTOOLCHAIN=local CGO_ENABLED=0
-cd /verif/mc
-cp /repo/go.sum /verif/mc/go.sum
-mkdir -p /verif/bin /verif/evidence
-/verif/mkoverlay.sh /verif/bin/ov.setup
-go build -tags verif -overlay /verif/bin/ov.setup/overlay.json -o /verif/bin/check ./cmd/check
-rm -rf /verif/bin/ov.setup
+ROOT="${VERIF_ROOT:-$(cd "$(dirname "$0")" && pwd)}"
+REPO="${VERIF_REPO:-/repo}"
+cd "$ROOT/mc"
+mkdir -p "$ROOT/bin" "$ROOT/evidence"
+OV="$ROOT/bin/ov.setup"
+"$ROOT/mkoverlay.sh" "$OV" "$REPO"
+sed "s#=> /repo#=> $REPO#" go.mod > "$OV/go.mod"; cp "$REPO/go.sum" "$OV/go.sum"
+go build -modfile="$OV/go.mod" -tags verif -overlay "$OV/overlay.json" -o "$ROOT/bin/check" ./cmd/check
+rm -rf "$OV"
 echo setup ok
